@@ -265,7 +265,8 @@ Proof. exact glue_history_safe. Qed.
    (so the model never cuts it short) *)
 Theorem C02_stream_recv_delivers :
   forall v rs pre tl z d', rh_inv v rs -> rh_stop rs = false -> dlive v (rh_d rs) pre tl ->
-    grecv v (rh_d rs) = Ok (z, d') -> z = 1%Z.
+    grecv v (rh_d rs) = Ok (z, d') ->
+    z = 1%Z /\ dcode (dq_st d') = 0 /\ skipn (dcurr (dq_st d')) (contents (dq_q d')) = tl.
 Proof. exact grecv_delivers. Qed.
 
 Theorem C02_dispatch_delivers :
@@ -273,6 +274,30 @@ Theorem C02_dispatch_delivers :
     dlive v (gr w) pre tl \/ dmsg (dq_st (gr w)) <> None ->
     gdisp v w = Ok (z, m, w') -> exists x, m = Some x.
 Proof. exact gdisp_delivers. Qed.
+
+(* ... and iterated: when the unread bytes of the input ring are exactly the frames of n messages
+   (one of them possibly decoded already and held), n dispatches hand over n messages -- by
+   [C02_glue_history_safe] these are the next n completed messages in order -- and nothing is left *)
+Theorem C02_glue_dispatch_all :
+  forall v n w g acc w' got, grel v w g -> atframes v (gr w) n ->
+    gdisp_n v n w acc = Ok (w', got) ->
+    length got = length acc + n /\ atframes v (gr w') 0 /\
+    exists g', grel v w' g' /\ g_del g' = g_del g ++ skipn (length acc) got.
+Proof. exact glue_dispatch_all. Qed.
+
+(* non-vacuity: three messages flushed and polled completely into a fresh reader, then three dispatches *)
+Example C02_glue_dispatch_all_example :
+  match gfold v_zpe_r (gworld_init 0 0 0 0) (mkgsp [] []) []
+          [GPush [65;0;0;66]%N; GFin; GPush [7]%N; GFin; GFin; GFlush 1000; GPoll 1000] with
+  | Ok (w, sp, del) =>
+    del = [] /\ sp_done sp = [[65;0;0;66]; [7]; []]%N /\
+    match gdisp_n v_zpe_r 3 w [] with
+    | Ok (w', got) => got = [[65;0;0;66]; [7]; []]%N /\ skipn (dcurr (dq_st (gr w'))) (contents (dq_q (gr w'))) = []
+    | _ => False
+    end
+  | _ => False
+  end.
+Proof. vm_compute. repeat split; reflexivity. Qed.
 
 (* ring level of the same fact: mpt_queue_recv never reports a decoding error while the bytes in
    the input ring are a prefix of a well-formed stream *)
@@ -362,3 +387,4 @@ Print Assumptions C02_ring_round_progress.
 Print Assumptions C02_ring_dispatch_policy_delivers.
 Print Assumptions C02_stream_recv_delivers.
 Print Assumptions C02_dispatch_delivers.
+Print Assumptions C02_glue_dispatch_all.
